@@ -159,6 +159,8 @@ def _user_source(ctx):
                     return True
         return False
 
+    is_source_immut = immut_checked
+
     def is_source(e, func, cn):
         if isinstance(e, ast.Name) and isinstance(e.ctx, ast.Load):
             if func in R.public_methods and e.id in func.all_param_names():
@@ -172,6 +174,7 @@ def _user_source(ctx):
         if isinstance(e, ast.Call) and 'USER' in prog.resolve_call(e, func):
             return 'value returned by the user callback'
         return None
+    is_source.immut_checked = immut_checked
     return is_source
 
 
@@ -180,7 +183,9 @@ def r11_2(ctx, rc):
     prog = ctx.prog
     sanit = ('JsonUtil.sanitize', 'json.loads', 'copy.deepcopy',
              R.builder + '._sanitize_filename')
-    T = _T(ctx.H, _user_source(ctx), cut=sanit, follow_params=True)
+    src = _user_source(ctx)
+    T = _T(ctx.H, src, cut=sanit, follow_params=True,
+           param_cut=src.immut_checked)
     sinks = []
     for f in prog.funcs.values():
         for call in prog.calls_in(f):
